@@ -145,6 +145,9 @@ type seqRun struct {
 	lastSeq                                                            int
 	strictAttrs                                                        bool // compare reply attributes with the backend (sequential, fault-free runs)
 	faulty                                                             bool
+	inj0                                                               int  // backend fault rules fired before the current operation
+	lastOK                                                             bool // status of the current operation's reply
+	lastWrite                                                          *Op  // the WRITE/SETATTR(size) of the current operation (faulted-operation oracle)
 	nWriteEOF, nTrunc, nRead, nNegPos, nReaddirAfterMut, nRenameLooked int
 	resynced                                                           int
 	evicted                                                            int
@@ -204,6 +207,12 @@ func pathDir(p string) string {
 }
 
 func (r *seqRun) vio(oracle, facts, format string, a ...any) { r.o.Vio(oracle, facts, format, a...) }
+
+// faulted reports whether an injected backend fault (error or short transfer) has fired during the
+// current operation. Only such an operation is judged by the relaxed clause ("it may fail, or leave a
+// prefix of its own payload; it may never report success for something that did not happen"); every
+// other operation of the same run - in particular every later one - is judged exactly.
+func (r *seqRun) faulted() bool { return r.faulty && r.w.FS.Injected() != r.inj0 }
 
 func (r *seqRun) addHandle(fh []byte, p string) {
 	if len(fh) == 0 {
@@ -266,7 +275,7 @@ func (r *seqRun) checkAttr(proc string, p string, a *nfsclient.Fattr3) {
 	} else {
 		r.ident[p] = [2]uint64{uint64(a.Type), a.Fileid}
 	}
-	if !r.strictAttrs {
+	if !r.strictAttrs || r.faulted() {
 		return
 	}
 	n := r.w.FS.Lookup(p)
@@ -448,6 +457,79 @@ func (r *seqRun) compareTree(after string) {
 	}
 }
 
+// afterFaulted judges an operation during which an injected backend fault fired. A reply of NFS3_OK is
+// held to the exact model (compareTree). A failed WRITE may have left a prefix of its own payload at its
+// offset - nothing else; a failed SETATTR(size) may or may not have resized the file. The model is then
+// re-read from the backend, so every later operation is judged exactly against what is really stored.
+func (r *seqRun) afterFaulted(after string, hr handleRef) {
+	defer func() { r.lastWrite = nil }()
+	if r.loose {
+		return
+	}
+	if r.lastOK {
+		r.compareTree(after)
+		return
+	}
+	if r.lastWrite == nil {
+		// a failed multi-step request (CREATE ...) under a fault may have completed some of its steps;
+		// what it must never do is judged by the operation's own oracles. Realign and go on exactly.
+		r.diverged = false
+		r.resync()
+		return
+	}
+	op := r.lastWrite
+	mn := r.model.get(hr.path)
+	big := mn == nil || mn.kind != mFile || mn.file.size > 1<<17
+	if !big && op.Op == "WRITE" && (op.Off > 1<<17 || op.Off+uint64(op.Count) > 1<<17) {
+		big = true
+	}
+	if !big && op.Op == "SETATTR" && op.SA.Size != nil && *op.SA.Size > 1<<17 {
+		big = true
+	}
+	if big {
+		// sparse or huge: the byte-exact comparison is not worth its cost here; later operations are
+		// still judged exactly against what the backend really holds
+		r.resync()
+		return
+	}
+	r.o.Checks++
+	have, _ := r.w.FS.ReadAll(hr.path)
+	old := mn.file.read(0, mn.file.size)
+	okState := eqBytes(have, old)
+	if !okState && op.Op == "WRITE" {
+		// the only candidates are "old content with payload[:k] stored at the offset"; the smallest k that
+		// explains the size and the last differing byte decides (a larger k only adds constraints)
+		data := PayloadBytes(op.Seed, int(op.Count))
+		k := 0
+		if len(have) > len(old) {
+			k = len(have) - int(op.Off)
+		} else if len(have) == len(old) {
+			for i := len(have) - 1; i >= 0; i-- {
+				if have[i] != old[i] {
+					k = i + 1 - int(op.Off)
+					break
+				}
+			}
+		}
+		if k > 0 && k <= len(data) && len(have) >= len(old) {
+			c := &fileModel{}
+			c.write(0, old)
+			c.write(op.Off, data[:k])
+			okState = eqBytes(have, c.read(0, c.size))
+		}
+	}
+	if !okState && op.Op == "SETATTR" && op.SA.Size != nil {
+		c := &fileModel{}
+		c.write(0, old)
+		c.truncate(*op.SA.Size)
+		okState = eqBytes(have, c.read(0, c.size))
+	}
+	if !okState {
+		r.vio(r.own("failed-request-left-foreign-bytes"), "op="+op.Op, "after %s (failed under an injected backend fault): %q holds neither its old content nor the old content with a prefix of the request's own payload applied (size %d, was %d)", after, hr.path, len(have), len(old))
+	}
+	r.resync()
+}
+
 // resync rebuilds the model from the backend after a recorded divergence, so
 // that one defect does not cascade into unrelated reports later in the run.
 func (r *seqRun) resync() {
@@ -465,7 +547,14 @@ func (r *seqRun) resync() {
 			mn.file = &fileModel{}
 			if size, ext, ok := r.w.FS.Extents(n.Path); ok {
 				for _, e := range ext {
-					mn.file.write(uint64(e.Off), e.Data)
+					d := e.Data
+					if e.Off >= size {
+						continue
+					}
+					if int64(len(d)) > size-e.Off {
+						d = d[:size-e.Off] // the last page is clipped at the file size (also keeps off+len below 2^63)
+					}
+					mn.file.write(uint64(e.Off), d)
 				}
 				if uint64(size) != mn.file.size {
 					mn.file.truncate(uint64(size))
@@ -529,7 +618,16 @@ type expect struct {
 func (r *seqRun) judge(op string, status uint32, e expect) bool {
 	r.o.Checks++
 	got := status == 0
+	r.lastOK = got
 	if e.either || r.loose || got == e.ok {
+		return got
+	}
+	if r.faulted() {
+		if got && !e.ok {
+			// an injected error never turns a request the model refuses into a success
+			r.vio(r.own("unexpected-success"), "op="+op+",fault-injected", "%s on %q succeeded where the model fails (a backend fault was injected during the request)", op, r.target)
+			r.diverged = true
+		}
 		return got
 	}
 	switch r.sc.Kind {
@@ -780,6 +878,7 @@ func (r *seqRun) step(i int, op Op) {
 		}
 	case "WRITE":
 		data := PayloadBytes(op.Seed, int(op.Count))
+		r.lastWrite = &op
 		res, err := cl.Write(hr.fh, op.Off, op.Stable, data)
 		if dead(err) {
 			return
@@ -832,6 +931,7 @@ func (r *seqRun) step(i int, op Op) {
 		case 2:
 			guard = &nfsclient.NFSTime{Sec: 1, Nsec: 1}
 		}
+		r.lastWrite = &op
 		r0, _, err := cl.NFS(nfsclient.NFSProcSetattr, nfsclient.ArgsSetattr(hr.fh, op.SA.sattr(), guard))
 		if dead(err) || r0 == nil {
 			return
@@ -1153,7 +1253,9 @@ func (r *seqRun) checkRead(name, p string, op Op, res *nfsclient.ReadRes, fm *fi
 	if avail < want {
 		want = avail
 	}
-	if uint64(res.Count) != want {
+	if r.faulted() && uint64(res.Count) < want {
+		// a short or failed backend read: fewer bytes than available may come back, never wrong ones
+	} else if uint64(res.Count) != want {
 		r.vio("C01.read-count", "", "%s: READ off=%d count=%d on size %d (transfer size %d) returned %d bytes, want %d", name, op.Off, op.Count, fm.size, r.transfer, res.Count, want)
 		if r.sc.Kind == "C23" && res.Count == 0 && want > 0 {
 			r.vio("C23.read-within-limits-returns-nothing", "", "%s: READ before EOF returned no data", name)
@@ -1210,7 +1312,7 @@ func (r *seqRun) stepCreate(name string, op Op, hr handleRef, base *mnode, res *
 		case nfsclient.Guarded:
 			e = expect{ok: false}
 			r.o.Checks++
-			if res.Status != nfsclient.NFS3ERR_EXIST {
+			if res.Status != nfsclient.NFS3ERR_EXIST && !(r.faulted() && res.Status != 0) {
 				r.vio("C03.guarded-existing", "kind="+cn.kind+fmt.Sprintf(",status=%d", res.Status), "%s: GUARDED CREATE of existing %s %q got %s, want NFS3ERR_EXIST", name, cn.kind, child, nfsclient.NFSStatName(res.Status))
 				e = expect{either: true}
 				r.diverged = true
@@ -1219,7 +1321,7 @@ func (r *seqRun) stepCreate(name string, op Op, hr handleRef, base *mnode, res *
 			same := cn.kind == mFile && cn.verf != nil && *cn.verf == verfBytes(op.Verf)
 			e = expect{ok: same}
 			r.o.Checks++
-			if !same && res.Status != nfsclient.NFS3ERR_EXIST {
+			if !same && res.Status != nfsclient.NFS3ERR_EXIST && !(r.faulted() && res.Status != 0) {
 				r.vio("C03.exclusive-other-verifier", "kind="+cn.kind+fmt.Sprintf(",status=%d", res.Status), "%s: EXCLUSIVE CREATE of existing %s %q with a different verifier got %s, want NFS3ERR_EXIST", name, cn.kind, child, nfsclient.NFSStatName(res.Status))
 				e = expect{either: true}
 				r.diverged = true
@@ -1244,6 +1346,10 @@ func (r *seqRun) stepCreate(name string, op Op, hr handleRef, base *mnode, res *
 		now, nowSize, _ := r.w.FS.ReadRange(child, 0, 1<<16) // sparse-safe: never materialise a huge file
 		if sizeSet && got {
 			cn.file.truncate(*op.SA.Size)
+		} else if sizeSet && r.faulted() {
+			// the request set size explicitly and failed under an injected fault after or before the
+			// truncation: either content is acceptable; realign with the backend
+			r.diverged = true
 		} else {
 			if uint64(nowSize) != beforeSize || !eqBytes(now, before) {
 				r.vio("C03.existing-file-data-destroyed", fmt.Sprintf("how=%d,replied_ok=%v", op.How, got), "%s: CREATE (how=%d, size not set) of existing file %q changed its data: size %d -> %d", name, op.How, child, beforeSize, nowSize)
@@ -1482,7 +1588,7 @@ func runSeqWorld(o *Outcome, sc *SeqScn, cfg SrvCfg) *seqRun {
 	r.transfer = absnfs.VerifTuning(w.NFS).TransferSize
 	r.maxFile = cfg.MaxFileSize
 	r.euid, r.egid, r.eaux, _ = squash(cfg.Squash, sc.Cred.Flavor, sc.Cred.UID, sc.Cred.GID, sc.Cred.Gids)
-	r.strictAttrs = len(sc.Faults) == 0
+	r.strictAttrs = true
 	r.faulty = len(sc.Faults) > 0
 	addr := sc.Addr
 	if addr == "" {
